@@ -240,7 +240,11 @@ for v in SPECIAL:
 
 
 # model selection and altloc policies vs per-row recomputation
-def altloc_structure():
+ALT_OCC = {"typical": [1.0, 0.3, 0.7, 1.0, 0.6, 0.4], "tie": [1.0, 0.5, 0.5, 1.0, 0.5, 0.5], "all zero": [1.0, 0.0, 0.0, 1.0, 0.0, 0.0],
+           "zero and positive": [0.0, 0.0, 0.2, 0.0, 0.0, 0.0]}
+
+
+def altloc_structure(occ):
     n = 6
     a = struc.AtomArray(n)
     a.chain_id[:] = "A"
@@ -250,31 +254,45 @@ def altloc_structure():
     a.element[:] = ["N", "C", "C", "N", "C", "C"]
     a.coord = np.arange(n * 3, dtype=np.float32).reshape(n, 3)
     a.set_annotation("altloc_id", np.array([".", "A", "B", ".", "B", "A"]))
-    a.set_annotation("occupancy", np.array([1.0, 0.3, 0.7, 1.0, 0.6, 0.4]))
+    a.set_annotation("occupancy", np.array(ALT_OCC[occ]))
     return a
 
 
-def altloc_case(policy):
-    a = altloc_structure()
-    f = pdbx.CIFFile()
+def altloc_case(policy, occ, flavour):
+    a = altloc_structure(occ)
+    f = pdbx.CIFFile() if flavour == "cif" else pdbx.BinaryCIFFile()
     pdbx.set_structure(f, a, include_bonds=False)
     # write the altloc ids into the atom_site table
     f.block["atom_site"]["label_alt_id"] = a.altloc_id
-    g = pdbx.CIFFile.deserialize(f.serialize())
+    if flavour == "cif":
+        g = pdbx.CIFFile.deserialize(f.serialize())
+    else:
+        s = io.BytesIO()
+        f.write(s)
+        s.seek(0)
+        g = pdbx.BinaryCIFFile.read(s)
     b = pdbx.get_structure(g, model=1, altloc=policy, extra_fields=["occupancy"])
     if policy == "all":
-        exp = list(range(6))
+        exp = [list(range(6))]
     elif policy == "first":
-        exp = [0, 1, 3, 4]
+        exp = [[0, 1, 3, 4]]
     else:
-        exp = [0, 2, 3, 4]
-    if b.coord.tolist() != a.coord[exp].tolist():
-        return f"altloc={policy}: rows {b.coord[:, 0].tolist()} expected rows {a.coord[exp][:, 0].tolist()}"
+        # per residue the altloc with the highest summed occupancy; with equal sums either choice is a
+        # highest one, but one location is chosen for every residue (no atom site is lost)
+        occs = ALT_OCC[occ]
+        r1 = [[1], [2]] if occs[1] == occs[2] else ([[1]] if occs[1] > occs[2] else [[2]])
+        r2 = [[4], [5]] if occs[4] == occs[5] else ([[4]] if occs[4] > occs[5] else [[5]])
+        exp = [[0] + x + [3] + y for x in r1 for y in r2]
+    if b.coord.tolist() not in [a.coord[e].tolist() for e in exp]:
+        return f"altloc={policy} ({occ} occupancies, {flavour}): rows {b.coord[:, 0].tolist()}, expected one of {[a.coord[e][:, 0].tolist() for e in exp]}"
     return None
 
 
 for pol in ("first", "occupancy", "all"):
-    R.check("altloc policy selects exactly the matching rows", f"altloc {pol}", {"altloc": pol}, lambda pol=pol: altloc_case(pol))
+    for occ in ALT_OCC:
+        for flavour in ("cif", "bcif"):
+            R.check("altloc policy selects exactly the matching rows", f"altloc {pol}", {"altloc": pol, "occupancies": occ, "flavour": flavour},
+                    lambda pol=pol, occ=occ, flavour=flavour: altloc_case(pol, occ, flavour))
 
 
 def model_case(m, flavour):
